@@ -689,6 +689,30 @@ func (e *c19Env) l2(out *zzverif.Out, c *c19Case, costs []int, r *c19Real, line 
 		}
 		return b.String()
 	}
+	// Finding F6 (the statement's "longest recent run that fits" vs the walk's "stop at the first over-budget candidate"):
+	// a longer recent run than the retained one fits.  Reported (kind not-longest-fitting-run) exactly when the real
+	// prompt IS the first-failure one and the measured totals are non-monotone — the detail carries them; a prompt that
+	// is not the first-failure one is reported by the clauses below, unlabelled.
+	if any != n && specRender(n) == r.prompt {
+		totalAt := func(i int) int {
+			t := costs[i]
+			if c.proj != 0 {
+				for _, m := range c.msgs[i:] {
+					t += imgTok * len(m.imgs)
+				}
+			}
+			return t
+		}
+		kept := "the latest message alone (never measured)"
+		if n < L-1 {
+			kept = fmt.Sprintf("run [%d:] measured %d", n, totalAt(n))
+		}
+		if totalAt(n-1) > c.limit && totalAt(any) <= c.limit && any < n-1 {
+			out.L2("not-longest-fitting-run", line, fmt.Sprintf("non-monotone measured total: num_ctx %d; retained %s; the walk stopped at candidate [%d:] measured %d (over budget); the longer run [%d:] measures %d and fits (style=%d tokenizer=%d)", c.limit, kept, n-1, totalAt(n-1), any, totalAt(any), c.style, c.mode))
+		} else {
+			out.L2("not-longest-fitting-run", line, fmt.Sprintf("a longer run [%d:] fits than the retained [%d:] and the measured totals do not explain it", any, n))
+		}
+	}
 	if want := specRender(n); want != r.prompt {
 		if n > 0 && c.msgs[n-1].role == "s" && specRender(n-1) == r.prompt {
 			out.L2("system-dropped", line, fmt.Sprintf("at-cut style=%d render: the prompt is the template applied without system message %d, which immediately precedes the retained run [%d:]", c.style, n-1, n))
